@@ -345,6 +345,16 @@ class Goebner:
             collector = aggs[0]
             if collector.function in (AggregateFunction.Min, AggregateFunction.Max):
                 raise SympyApi("Cannot express addition with min/max aggregate, skipping.")
+            # the result is a #sum: a #sum+ can only join it if its weights are non-negative numbers
+            for agg in aggs:
+                if agg.function == AggregateFunction.SumPlus and not all(
+                    e.terms
+                    and e.terms[0].ast_type == ASTType.SymbolicTerm
+                    and e.terms[0].symbol.type == clingo.SymbolType.Number
+                    and e.terms[0].symbol.number >= 0
+                    for e in agg.elements
+                ):
+                    raise SympyApi("Cannot express addition with a #sum+ whose weights may be negative, skipping.")
 
             # add a unique identifier to each aggregate so set semantic does not work over multiple aggregates
             def agg_ident(i: int) -> AST:
